@@ -6,6 +6,7 @@
 #include "interpose.h"
 #include "hcommon.h"
 #include "hworld.h"
+#include "list.h"
 
 /* ------------------------------------------------------------ buffers */
 struct hbuf {
@@ -397,7 +398,24 @@ static void edge_add(const char *he, const char *hf, int same, const char *ae, c
     edges[nedges++] = strdup(tmp);
     pthread_mutex_unlock(&edgemu);
 }
+/* scheduling points (C02 hand-off): called in the main thread just before it acquires a mutex / looks at a list */
+void (*h_lock_hook)(pthread_mutex_t *m, const char *fn);
+void (*h_list_hook)(struct list *l, const char *fn);
+static int is_harness_thread(void);
+int h_mutex_held(pthread_mutex_t *m) {
+    for (int i = 0; i < nheld; i++)
+        if (held[i].m == m)
+            return 1;
+    return 0;
+}
+struct list_node *h_list_first(struct list *l, const char *fn) {
+    if (h_list_hook && !is_harness_thread())
+        h_list_hook(l, fn);
+    return list_first(l);
+}
 int h_mutex_lock(pthread_mutex_t *m, const char *expr, const char *fn) {
+    if (h_lock_hook && !is_harness_thread())
+        h_lock_hook(m, fn);
     for (int i = 0; i < nheld; i++)
         edge_add(held[i].expr, held[i].fn, held[i].m == m, expr, fn);
     int r = pthread_mutex_lock(m);
@@ -439,12 +457,14 @@ void h_lock_reset(void) {
 }
 
 /* ------------------------------------------------------------ writer threads */
-enum { W_RUNNING, W_PARKED, W_SLEEPING, W_DONE };
+enum { W_RUNNING, W_PARKED, W_SLEEPING, W_DONE, W_BLOCKED_, W_WAITING };
 struct hthread {
     pthread_t th;
     void *(*fn)(void *);
     void *arg;
     int state, go, gen;
+    pthread_cond_t *waitc; /* the condition it sleeps on (W_WAITING) */
+    int signalled;         /* that condition was signalled since it went to sleep */
     long timeout; /* tv_sec passed to the last timed wait */
     struct hthread *next;
 };
@@ -453,6 +473,7 @@ static pthread_cond_t wcv = PTHREAD_COND_INITIALIZER;
 static struct hthread *threads;
 static int wgen;
 static __thread struct hthread *self;
+static int is_harness_thread(void) { return self != NULL; }
 
 static void *trampoline(void *x) {
     struct hthread *t = x;
@@ -516,6 +537,48 @@ int h_cond_timedwait(pthread_cond_t *c, pthread_mutex_t *m, const struct timespe
     park(t, W_PARKED);
     pthread_mutex_lock(m);
     return 0;
+}
+int h_thread_step(void *h);
+/* pthread_cond_wait of a harness-run thread: it sleeps until the condition has been signalled AND the harness schedules it */
+int h_cond_wait(pthread_cond_t *c, pthread_mutex_t *m, const char *expr, const char *fn) {
+    struct hthread *t = self;
+    if (!t)
+        return pthread_cond_wait(c, m);
+    pthread_mutex_lock(&wmu);
+    t->waitc = c;
+    t->signalled = 0;
+    pthread_mutex_unlock(&wmu);
+    h_mutex_unlock(m, expr, fn);
+    park(t, W_WAITING);
+    h_mutex_lock(m, expr, fn);
+    return 0;
+}
+int h_cond_signal(pthread_cond_t *c) {
+    struct hthread *t;
+    pthread_mutex_lock(&wmu);
+    for (t = threads; t; t = t->next)
+        if (t->gen == wgen && t->state == W_WAITING && t->waitc == c && !t->signalled) {
+            t->signalled = 1;
+            break;
+        }
+    pthread_mutex_unlock(&wmu);
+    return pthread_cond_signal(c);
+}
+/* let a sleeping writer run until it sleeps again; 0 = it is asleep and nobody signalled it */
+int h_writer_run(void *h) {
+    struct hthread *t = h;
+    int ok;
+    pthread_mutex_lock(&wmu);
+    ok = t->state == W_WAITING && t->signalled;
+    pthread_mutex_unlock(&wmu);
+    if (!ok)
+        return 0;
+    h_thread_step(t);
+    return 1;
+}
+int h_writer_asleep_unsignalled(void *h) {
+    struct hthread *t = h;
+    return t->state == W_WAITING && !t->signalled;
 }
 unsigned h_sleep(unsigned n) {
     struct hthread *t = self;
